@@ -90,3 +90,7 @@ claim('C27', 'model_checking',
       'Same event layer as C26 with loop iteration numbers: for every loop instance and every inspection node, z3 decides for each unreported variable whether an input exists on which an element written earlier (previous iteration / before the node) is read later without an intervening overwrite; then loop_carried_dependencies / read_after_write_vars must have reported it.',
       'Trusted: vlib/fsmt/interp.py event layer, z3. Bounds as C26.',
       'SMT feasibility (z3) of write->read event pairs with kill conditions vs the dependency queries', 'E-SMT', 'DESIGN.md#C27')
+claim('C43', 'translation_validation',
+      'PARTIAL (behavioural part): files violating the fixable rules are checked and fixed by the real Linter in a scratch directory, read back and parsed; z3 decides whether the fixed program can behave differently from the original for any input. Whether the fixer runs at all and whether the fixed rules still report violations is executed concretely and reported (recorded defects: see known findings), but is not a solver verdict.',
+      TV_NOTE + ' "All other text unchanged" has no value domain and is not claimed.',
+      'translation validation (z3 equivalence of original vs fixed file) + concrete re-lint', 'E-SMT', 'DESIGN.md#C43')
